@@ -222,8 +222,13 @@ def run_impl(project, keep=False, extra_env=None):
         more = ("--info-export", info) if args.get("info_export") else ()
         if args.get("_before") is not None and local is None:
             # a sibling command line first, in the same build directory; only what it leaves behind matters
-            run_laze(d, {k: v for k, v in args["_before"].items() if not k.startswith("_")}, extra_env=extra_env)
-            read_dump(d)
+            befores = args["_before"] if isinstance(args["_before"], list) else [args["_before"]]
+            for ba in befores:
+                if set(ba) <= {"_how"}:
+                    continue
+                bmore = ("--info-export", os.path.join(root, ".info-before.json")) if ba.get("info_export") else ()
+                run_laze(d, {k: v for k, v in ba.items() if not k.startswith("_")}, extra_env=extra_env, more=bmore)
+                read_dump(d)
         if local is not None:
             r = run_laze(d, args, extra_env=extra_env, global_mode=False, cwd=os.path.join(d, local), more=more)
         else:
